@@ -149,6 +149,15 @@ func vhHasEntry(i *types.Index, d digest.Digest, tag string, subject string) boo
 	return false
 }
 
+func vhHasTop(i *types.Index, d digest.Digest) bool {
+	for _, m := range i.Manifests {
+		if m.Digest == d {
+			return true
+		}
+	}
+	return false
+}
+
 type vhGCSetup struct {
 	g       *vhGraph
 	repo    Repo
@@ -260,6 +269,24 @@ func vhGCWorld(size int, exact bool) *vhGCSetup {
 			n.entry = 1
 		default:
 			n.entry = 0
+		}
+	}
+	// delete history: the blob of one listed manifest may have been removed by a blob
+	// delete after its push, leaving a top-level entry without backing content
+	if exact && vh.Param("ORPHAN", 0) == 1 {
+		var cands []*vhNode
+		for _, n := range w.g.nodes {
+			if n.mt != "" {
+				cands = append(cands, n)
+			}
+		}
+		if k := vh.Choice("orphan", 1+len(cands)); k > 0 {
+			n := cands[k-1]
+			vh.Assume(n.stored && vhHasTop(idxNow, n.dig))
+			vh.Assert(w.repo.BlobDelete(n.dig) == nil, "C06.setup-blob-delete")
+			n.stored = false
+			vh.Tag("orphan", n.name)
+			vh.Cover("C06.orphan-entry")
 		}
 	}
 	// ages: every blob gets an arbitrary modification instant <= now
